@@ -123,13 +123,28 @@ Add(r, s, sc, px) ==
   /\ tabs' = [tabs EXCEPT ![regs[r].d][s] = [scale |-> sc, pfx |-> px]]
   /\ memo' = [memo EXCEPT ![regs[r].c] = NoCache]
   /\ last' = Ok /\ UNCHANGED <<regs, tflag>>
-Modify(r, k, sc) ==
-  /\ regs[r].live
-  /\ Log([op |-> "modify", r |-> r, sym |-> k, scale |-> sc])
-  /\ IF regs[r].kind = "default" \/ TabOf(r)[k].scale = 0
-     THEN last' = Raise /\ UNCHANGED <<tabs, memo>>
-     ELSE /\ tabs' = [tabs EXCEPT ![regs[r].d][k].scale = sc]
-          /\ memo' = [memo EXCEPT ![regs[r].c] = NoCache]
+\* VALUE CLASSES of a quantity-valued argument (registry.modify(symbol, value), define_unit(symbol, value)):
+\*   "num"  a plain number (define_unit: a (number, "m") tuple)
+\*   "qty"  a quantity OBJECT the caller keeps, in units that are not the MKS base units:
+\*          q = unyt_quantity(sc/1000, "km") (default registry: the km row exists since import; Unit("km") is memoised
+\*          there again when an add through the default registry dropped its memo)
+\*   "ns"   an OBJECT EXPORTED BY THE unyt NAMESPACE that is not in MKS base units (unyt.planck_length_cgs, cm);
+\*          its MKS value is the scale NsScale (a stand-in: the harness projects multiples of the real number onto it)
+\* As transcribed the argument is only READ (value.in_base("mks") makes a converted copy): the table gets the MKS number,
+\* the object handed in is the same afterwards (obs.arg = "kept").
+Vias == {"num", "qty", "ns"}
+NsScale == 8
+Modify(r, k, sc, via) ==
+  /\ regs[r].live /\ (via = "ns" <=> sc = NsScale)
+  /\ Log([op |-> "modify", r |-> r, sym |-> k, scale |-> sc, via |-> via])
+  /\ LET \* the caller's quantity is built first: Unit("km") through the DEFAULT registry (memo hit unless an add dropped the memo)
+         x == IF via = "qty" THEN ConstructR(tabs[0], memo[0], "km") ELSE [tab |-> tabs[0], mem |-> memo[0]]
+         t1 == [tabs EXCEPT ![0] = x.tab]
+         m1 == [memo EXCEPT ![0] = x.mem] IN
+     IF regs[r].kind = "default" \/ TabOf(r)[k].scale = 0
+     THEN last' = Raise /\ tabs' = t1 /\ memo' = m1
+     ELSE /\ tabs' = [t1 EXCEPT ![regs[r].d][k].scale = sc]
+          /\ memo' = [m1 EXCEPT ![regs[r].c] = NoCache]
           /\ last' = Ok
   /\ UNCHANGED <<regs, tflag>>
 Remove(r, k) ==
@@ -157,9 +172,10 @@ Construct(r, p) ==
   /\ UNCHANGED <<regs, tflag>>
 \* define_unit("foo", (sc, "m"), prefixable=px[, registry=h]) on the default TABLE: without registry argument (r = 0:
 \* the default registry + an attribute of `unyt`) or through another registry object h on the same table
-DefineUnit(r, sc, px) ==
-  /\ regs[r].live /\ regs[r].d = 0
-  /\ Log([op |-> "define", r |-> r, sym |-> "foo", scale |-> sc, pfx |-> px])
+\* via = "ns": define_unit("foo", unyt.planck_length_cgs, ...) - the value is an exported quantity object (only read)
+DefineUnit(r, sc, px, via) ==
+  /\ regs[r].live /\ regs[r].d = 0 /\ via \in {"num", "ns"} /\ (via = "ns" <=> sc = NsScale)
+  /\ Log([op |-> "define", r |-> r, sym |-> "foo", scale |-> sc, pfx |-> px, via |-> via])
   /\ IF ImplAtomOk(tabs[0], "foo")
      THEN /\ last' = Raise /\ tabs' = [tabs EXCEPT ![0] = WriteBack(tabs[0], "foo")] /\ UNCHANGED memo
      ELSE /\ tabs' = [tabs EXCEPT ![0]["foo"] = [scale |-> sc, pfx |-> px]]
@@ -167,7 +183,7 @@ DefineUnit(r, sc, px) ==
           /\ memo' = [memo EXCEPT ![regs[r].c] = IF r = 0 THEN [NoCache EXCEPT !["foo"] = [k |-> "unit", s |-> R(sc)]] ELSE NoCache]
           /\ last' = Ok
   /\ UNCHANGED <<regs, tflag>>
-DefineDefault(sc, px) == DefineUnit(0, sc, px)
+DefineDefault(sc, px) == DefineUnit(0, sc, px, "num")
 
 (* ---- constructors: which alias, which copy ---- *)
 NewRec(n, d, c, kind, grp) == [k |-> "new", r |-> n, d |-> d, c |-> c, kind |-> kind, grp |-> grp]
@@ -312,9 +328,11 @@ InBase(r, q, sys, to) ==
 \* the regime in which the namespace helpers are transcribed: all built-in symbols present, m as shipped
 Stock(r) == tflag[regs[r].d].def /\ TabOf(r)["m"] = DefRow("m")
 \* UnitSystem(name, lu, "kg", "s", registry=r) : validation reads registry[unit] (write-back)
-MkUnitSystem(r, lu) ==
-  /\ regs[r].live /\ Stock(r) /\ tflag[regs[r].d].ident
-  /\ Log([op |-> "usys", r |-> r, sym |-> lu])
+\* obj: the length unit is handed in as the Unit OBJECT exported by the namespace (unyt.km) instead of its name:
+\* only its text is read (str(v)), the object is the same afterwards
+MkUnitSystem(r, lu, obj) ==
+  /\ regs[r].live /\ Stock(r) /\ tflag[regs[r].d].ident /\ (obj => lu = "km")
+  /\ Log([op |-> "usys", r |-> r, sym |-> lu, obj |-> obj])
   /\ LET g == GetItems(TabOf(r), <<lu>>, 1) IN
      /\ tabs' = [tabs EXCEPT ![regs[r].d] = g.l]
      /\ last' = IF g.ok THEN Ok ELSE Raise
